@@ -329,7 +329,7 @@ def expected_view(opname, kw, dflt, conn_host, script):
         return ('list', canon_full(objs))
     if post == 'getQualifier':
         return ('one', canon_full(objs[0])) if objs else None
-    if post in ('pullInsts', 'pullPaths'):
+    if post in ('pullInsts', 'pullInstsPath', 'pullPaths'):
         eos = [it for it in script if it[0] == 'EndOfSequence']
         ctx = [it for it in script if it[0] == 'EnumerationContext']
         if not eos or str(eos[0][2]).lower() not in ('true', 'false') or not ctx:
